@@ -2,6 +2,7 @@
 //     <class> <event> <event> ...            events:  cN:P  construct object N with parameter set P
 //                                                     kN:M  N := copy-constructed from M
 //                                                     aN:M  N = M   (N == M: self-assignment)
+//                                                     sN:P  re-parameterise N in place to parameter set P (setPrimes / read(istream&))
 //                                                     uN    use N (one more probe; matters for caches / statics)
 //                                                     dN    destroy N
 // Every request runs in a fork()ed child (a crash or a hang is an observation, not the end of the run).  After EVERY event the
@@ -28,6 +29,7 @@ static void run_history(const std::string& line, bool verbose, FILE* out) {
         if (k == 'c') obj[n] = make(cls, m);
         else if (k == 'k') obj[n] = obj[m]->copy();
         else if (k == 'a') obj[n]->assign(*obj[m]);
+        else if (k == 's') { if (!mutate(cls, obj[n], m)) { fprintf(out, " | X no-mutator\n"); return; } }
         else if (k == 'u') { }          // one more round of probes (below): matters for caches / statics
         else if (k == 'd') { delete obj[n]; obj[n] = 0; }
         fprintf(out, " | %s", ev.c_str());
